@@ -305,12 +305,19 @@ type BoxDecoder func(hdr BoxHeader, startPos uint64, r io.Reader) (Box, error)
 
 // DecodeBox decodes a box
 func DecodeBox(startPos uint64, r io.Reader) (Box, error) {
+	b, _, err := decodeBoxWithSize(startPos, r)
+	return b, err
+}
+
+// decodeBoxWithSize decodes a box and also returns the size it has in the input.
+// That size differs from Size() of the decoded box when the input used a 64-bit size field.
+func decodeBoxWithSize(startPos uint64, r io.Reader) (Box, uint64, error) {
 	var err error
 	var b Box
 
 	h, err := DecodeHeader(r)
 	if err != nil {
-		return nil, err
+		return nil, 0, err
 	}
 
 	d, ok := decoders[h.Name]
@@ -321,20 +328,26 @@ func DecodeBox(startPos uint64, r io.Reader) (Box, error) {
 		b, err = d(h, startPos, r)
 	}
 	if err != nil {
-		return nil, fmt.Errorf("decode %s pos %d: %w", h.Name, startPos, err)
+		return nil, 0, fmt.Errorf("decode %s pos %d: %w", h.Name, startPos, err)
 	}
 
-	return b, nil
+	return b, h.Size, nil
 }
 
 // DecodeBoxLazyMdat decodes a box but doesn't read mdat into memory
 func DecodeBoxLazyMdat(startPos uint64, r io.ReadSeeker) (Box, error) {
+	b, _, err := decodeBoxLazyMdatWithSize(startPos, r)
+	return b, err
+}
+
+// decodeBoxLazyMdatWithSize is DecodeBoxLazyMdat that also returns the size the box has in the input.
+func decodeBoxLazyMdatWithSize(startPos uint64, r io.ReadSeeker) (Box, uint64, error) {
 	var err error
 	var b Box
 
 	h, err := DecodeHeader(r)
 	if err != nil {
-		return nil, err
+		return nil, 0, err
 	}
 
 	d, ok := decoders[h.Name]
@@ -347,7 +360,7 @@ func DecodeBoxLazyMdat(startPos uint64, r io.ReadSeeker) (Box, error) {
 		switch h.Name {
 		case "mdat":
 			if remainingLength < 0 {
-				return nil, fmt.Errorf("decode box %q: size %d is too big", h.Name, h.Size)
+				return nil, 0, fmt.Errorf("decode box %q: size %d is too big", h.Name, h.Size)
 			}
 			b, err = DecodeMdatLazily(h, startPos)
 			if err == nil {
@@ -358,10 +371,10 @@ func DecodeBoxLazyMdat(startPos uint64, r io.ReadSeeker) (Box, error) {
 		}
 	}
 	if err != nil {
-		return nil, fmt.Errorf("decode box %q: %w", h.Name, err)
+		return nil, 0, fmt.Errorf("decode box %q: %w", h.Name, err)
 	}
 
-	return b, nil
+	return b, h.Size, nil
 }
 
 // Fixed16 - An 8.8 fixed point number
